@@ -133,6 +133,23 @@ def step (d : DState) (opLine : String) (impl : String) : DState × StepOut :=
   | ["tsle", p, l, tp, tl] =>
     (d, { model := if PdModel.Tso.tsLessEqual (natArg p) (natArg l) (natArg tp) (natArg tl) then "true" else "false" })
   | ["compose", p, l] => (d, { model := toString (C01.compose (natArg p) (natArg l)) })
+  | "cburst" :: _ =>
+    -- concurrent requests against a running updater: judged by the monitor only (C01 on the granted
+    -- ranges with their real-time stamps, C02 against the window stored at the end, which by monotonicity
+    -- bounds the window at every grant from above)
+    let (a, st) : String × Nat := match impl.splitOn " @" with
+      | [a, b] => (a, natArg ((words b).headD "0"))
+      | _ => (impl, 0)
+    let gs : List C01.Ev := ((words a).drop 1).filterMap (fun g =>
+      match g.splitOn ":" with
+      | [ms, lo, hi, s, f] => some ⟨natArg s, natArg f, natArg ms, natArg lo, natArg hi⟩
+      | _ => none)
+    let fails :=
+      (if C01.check PdModel.Generated.Tso.physicalShiftBits gs then [] else
+        [s!"sig=C01.concurrent-grants-overlap-or-out-of-order n={gs.length}"]) ++
+      (if gs.all (fun e => decide (e.ms * 1000000 < st)) then [] else
+        [s!"sig=C02.concurrent-grant-not-below-stored-window stored={st}"])
+    (d, { model := impl, fails := fails })
   | ws =>
     match parseOp ws with
     | none => (d, { model := "bad-op @0 0:0:0:0" })
